@@ -296,9 +296,9 @@ theorem runProgram_optimize (cfg : Cfg) (isNever : Stmt → Bool) (hnd : NeverDi
     runProgram (optCfg isNever cfg) fuel entry = runProgram cfg fuel entry := by
   have hs := sim_all cfg isNever hnd fuel
   unfold runProgram
-  have he : ∀ e, evalExpr { prog := optimizeProgram isNever cfg.prog, callLimit := cfg.callLimit } fuel e
+  have he : ∀ e, evalExpr { prog := optimizeProgram isNever cfg.prog, callLimit := cfg.callLimit, hostSingletons := cfg.hostSingletons } fuel e
       = evalExpr cfg fuel e := hs.expr
-  have ha : ∀ sp f vs, applyFn { prog := optimizeProgram isNever cfg.prog, callLimit := cfg.callLimit } fuel sp f vs
+  have ha : ∀ sp f vs, applyFn { prog := optimizeProgram isNever cfg.prog, callLimit := cfg.callLimit, hostSingletons := cfg.hostSingletons } fuel sp f vs
       = applyFn cfg fuel sp f vs := hs.apply
   simp only [optCfg, findFn_optimize, he, ha]
   have hfor : ∀ {β : Type} (f : Module → β → M (ForInStep β)) (b : β),
